@@ -121,7 +121,7 @@ def setup_all():
 # ---------------------------------------------------------------- proof stage
 
 # further statement files that belong to a property (built, listed and checked together with Props/<prop>.v)
-EXTRA_PROPS = {"C18": ["C18Float"], "C12": ["C12Atomic"], "C17": ["C17SkipList"]}
+EXTRA_PROPS = {"C18": ["C18Float"], "C12": ["C12Atomic"], "C17": ["C17SkipList", "C17Hash"], "C20": ["C20Startup"]}
 
 
 def props_files(prop):
@@ -301,8 +301,13 @@ def finish(res, level="proof"):
             res.extra["pool_contract_breaches"] = 0
     except Exception as ex:   # noqa
         res.broken.append("contract monitor bookkeeping failed: %s" % ex)
+    # only findings listed (status "known") for this property in known_findings.json are suppressed; the file is never written here
+    listed = {e["id"] for e in load_known(prop) if e.get("status") == "known"}
     for fid, what in sorted(res.known_hits.items()):
-        lines.append("KNOWN-FINDING: property=%s %s: %s" % (prop, fid, what))
+        if fid in listed:
+            lines.append("KNOWN-FINDING: property=%s %s: %s" % (prop, fid, what))
+        else:
+            res.oracle_failures.append(("# finding signature %s matched, but known_findings.json does not list it for %s" % (fid, prop), what))
     nviol = 0
     if res.oracle_failures:
         case, why = res.oracle_failures[0]
